@@ -79,22 +79,12 @@ def specShl (w : Nat) (a : Int) (s : Nat) : Int := toS w (((a * 2 ^ s) % (2 ^ w 
 /-- PyTorch `a >> s`: arithmetic shift = floor division by `2^s`. -/
 def specShr (a : Int) (s : Nat) : Int := a / (2 ^ s : Int)
 
-/-! ### `div.Tensor_mode` on integers goes through `float32`
+/-! ### `div.Tensor_mode` on integers (fix 5204ab5): exact integer operators
 
-`Cast(a, FLOAT)`: round-to-nearest-even to a 24-bit significand (only the integer part matters
-here).  Used for the finding's negation witness; the quotient itself is a float kernel (outside). -/
-def f32OfInt (a : Int) : Int :=
-  let m := a.natAbs
-  if m < 2 ^ 24 then a
-  else
-    let e := Nat.log2 m - 23          -- drop `e` low bits
-    let q := m >>> e
-    let rem := m % 2 ^ e
-    let half := 2 ^ (e - 1)
-    let q' := if rem > half ∨ (rem = half ∧ q % 2 = 1) then q + 1 else q
-    (if a < 0 then -1 else 1) * ((q' * 2 ^ e : Nat) : Int)
-
-/-- `div(a, 1, rounding_mode="floor")` as emitted: `CastLike(Floor(Div(Cast(a,FLOAT), Cast(1,FLOAT))), a)`. -/
-def divModeByOne (a : Int) : Int := f32OfInt a
+`rounding_mode="trunc"` → ONNX integer `Div`; `"floor"` → `aten_floor_divide`. -/
+def divModeTrunc (a b : Int) : Int := onnxDiv a b
+def divModeFloor (signed : Bool) (a b : Int) : Int := if signed then floorDivideSigned a b else floorDivideUnsigned a b
+/-- `torch.div(a, b, rounding_mode="trunc")` on integers: C-style division. -/
+def specDivTrunc (a b : Int) : Int := Int.tdiv a b
 
 end OV.C08.IntArith
